@@ -1010,12 +1010,23 @@ _G_R4.update({
     "StreamNew": T("TinkVerif.GlueTie", "streamnew_NewAESGCMHKDF_tie streamnew_NewAESCTRHMAC_tie"),
     "HkdfPrf": T("TinkVerif.GlueTie", "hkdfprf_NewHKDFPRF_tie hkdfprf_ValidateHKDFPRFParams_tie"),
     "HmacNew": T("TinkVerif.GlueTie", "hmacnew_ValidateHMACParams_tie hmacnew_New_tie"),
+    "Pss": T("TinkVerif.GlueTie", "pss_NewSigner_tie pss_NewVerifier_tie"),
+    "KmsEnv": T("TinkVerif.GlueTie", "kmsenv_parseEnvelope_tie kmsenv_Decrypt_tie kmsenv_Encrypt_tie"),
+    "Ecies": T("TinkVerif.GlueTie", "ecies_NewEncrypt_tie ecies_NewDecrypt_tie"),
+    "DeriveKeyset": T("TinkVerif.GlueTie", "derivekeyset_DeriveKeyset_tie derivekeyset_all_derived"),
+    "ManagerAdd": T("TinkVerif.GlueTie", "manageradd_newRandomKeyID_same manageradd_Add_early manageradd_Add_after_draw"),
+    "JwtKid": T("TinkVerif.GlueTie", "jwtkid_newFullVerifier_tie jwtkid_newFullSigner_tie jwtkid_verifier_cfg"),
+    "Prefixmap": T("TinkVerif.GlueTie", "prefixmap_Next_index prefixmap_iterSpec prefixmap_matching_tie prefixmap_Insert_tie "
+                   "prefixmap_build_bucket prefixmap_candidates"),
+    "HmacMac": T("TinkVerif.GlueTie", "hmacmac_ComputeMAC_tie hmacmac_VerifyMAC_tie"),
+    "PrfSet": T("TinkVerif.GlueTie", "prfset_NewPRFSetWithConfig_tie prfset_all_built"),
+    "KeyDerivers": T("TinkVerif.GlueTie", "keyderivers_hmacPRF_tie keyderivers_hkdfPRF_tie keyderivers_hmacPRF_read_error"),
 })
 for _p, _mods in (
-        ("C01", ["FactoryAead", "HmacNew"]), ("C02", ["FactoryAead"]), ("C03", ["FactoryVerify"]), ("C04", ["FactoryMac", "HmacNew"]),
-        ("C05", ["FactoryAead", "FactoryDaead", "FactoryMac", "FactoryVerify", "FactoryHybrid", "Jwt"]),
-        ("C06", ["FactoryHybrid"]), ("C07", ["StreamNew"]), ("C08", ["FactoryDaead"]), ("C09", ["Jwt"]),
-        ("C11", ["IdReq"]), ("C15", ["HkdfPrf"]), ("C20", ["IdReq"])):
+        ("C01", ["FactoryAead", "HmacNew", "HmacMac"]), ("C02", ["FactoryAead", "KmsEnv", "Prefixmap"]), ("C03", ["FactoryVerify", "Pss"]), ("C04", ["FactoryMac", "HmacNew", "HmacMac"]),
+        ("C05", ["FactoryAead", "FactoryDaead", "FactoryMac", "FactoryVerify", "FactoryHybrid", "Jwt", "JwtKid", "Prefixmap"]),
+        ("C06", ["FactoryHybrid", "Ecies"]), ("C07", ["StreamNew"]), ("C08", ["FactoryDaead"]), ("C09", ["Jwt", "JwtKid"]),
+        ("C11", ["IdReq", "ManagerAdd"]), ("C15", ["HkdfPrf", "PrfSet"]), ("C17", ["DeriveKeyset", "KeyDerivers"]), ("C20", ["IdReq", "ManagerAdd"])):
     PROPS[_p]["lean"] = PROPS[_p]["lean"] + [_GT + m for m in _mods]
     for m in _mods:
         PROPS[_p]["theorems"] = PROPS[_p]["theorems"] + [t for t in _G_R4[m] if t not in PROPS[_p]["theorems"]]
@@ -1025,6 +1036,7 @@ for _p, _mods in (
                                        " are abstract accept / transform functions, monitoring loggers are dropped; Jwt: Validator.Validate with the clock"
                                        " as a parameter, validateHeader / validateKIDInHeader tied to Model/Jwt; IdReq: IDRequirement of serializations,"
                                        " NewManagerFromHandle, keysetToEntries id requirement; StreamNew / HkdfPrf / HmacNew: constructor parameter checks"
-                                       " and stored values in closed form).")
+                                       " and stored values in closed form; JwtKid: kid strategies of newFullVerifier / newFullSigner; ManagerAdd: whole"
+                                       " stateful Manager.Add; DeriveKeyset: the whole derivation loop; Pss / Ecies / KmsEnv: constructor and envelope glue).")
 
 NOT_BUILT = {}
